@@ -21,7 +21,19 @@ import (
 	"io"
 
 	"golang.org/x/sync/errgroup"
+
+	git "github.com/dolthub/dolt/go/store/blobstore/internal/git"
 )
+
+// ghost protocol state (never read by product code; changed only by ghost_set clauses of contracts)
+var verif_ghost struct {
+	// git blobstore, conditional write: the most recent look-up of a key's stored version
+	kvChecked bool    // it succeeded
+	kvHead    git.OID // the remote head it was made against
+	kvHave    bool    // ... and whether there was one
+	kvKey     string  // the key
+	kvVersion string  // the version found
+}
 
 // Verification vocabulary (ghost code, compiled only with -tags verif). The
 // bodies are executable so that contracts can also be run concretely.
